@@ -680,13 +680,15 @@ def check_property(prop, spec, tier, seed, replay=None, keep=False):
             return p, r0.returncode, r0.stdout
         agree = 0
         for p, rc0, out0 in pool.map(offline, xfiles):
-            if rc0 == 0:
+            # the offline checker judges the clauses of C01, C02 and C03 at once; this check only speaks for its own
+            mine = [ln for ln in out0.splitlines() if ln.startswith("VIOLATED %s/" % prop)]
+            if rc0 == 0 or (rc0 == 1 and not mine):
                 agree += 1
             else:
                 keep_p = os.path.join(evroot, "evidence", "replays", "%s-xcheck-%s" % (prop, os.path.basename(p)))
                 shutil.copyfile(p, keep_p)
                 failures.append("oracle disagreement: harness checker silent, monitors/history.py reports %s on %s" % (
-                    " | ".join(out0.strip().splitlines()[:3])[:600], os.path.relpath(keep_p, VERIF)))
+                    " | ".join(mine[:3] or out0.strip().splitlines()[:3])[:600], os.path.relpath(keep_p, VERIF)))
         total.counters["histories_cross_checked_offline"] = len(xfiles)
         total.counters["histories_cross_checked_agreeing"] = agree
 
